@@ -46,6 +46,11 @@ var apiTexts = map[string]string{
 	"heir":     "{ // {allOf: \"@typeObj\"}\n  \"hk\": 1\n}",
 	"typeObj":  "{\n  \"ok\": 1\n}",
 	"usesHeir": `{"r": @heir}`,
+	// a type that refers to another one, @id, which two roots define differently
+	"usesItem": `{"item": @item}`,
+	"item":     "{\n  \"id\": @id,\n  \"n\": 1\n}",
+	"idNum":    `1`,
+	"idStr":    `"abc"`,
 	// a schema that refers to a named enum rule: every object of one history with this content is given the SAME
 	// rule object (apiWorld.rule), as the schemas of one project are
 	"usesRule": `"WOLF" // {enum: @animals}`,
@@ -100,6 +105,9 @@ func apiTypeName(content string) string {
 	}
 	if content == "typeU" {
 		return "@u"
+	}
+	if content == "idNum" || content == "idStr" {
+		return "@id"
 	}
 	return "@" + content
 }
@@ -280,6 +288,24 @@ func apiDefectSources(content string, regs []string) int {
 			}
 		case "rootRef":
 			if !hasObj {
+				n++
+			}
+		case "usesItem", "item":
+			has := func(x string) bool {
+				for _, r := range regs {
+					if r == x {
+						return true
+					}
+				}
+				return false
+			}
+			if c == "usesItem" && !has("item") {
+				n++
+			}
+			if !has("idNum") && !has("idStr") {
+				n++
+			}
+			if has("idNum") && has("idStr") {
 				n++
 			}
 		case "rootChoice":
